@@ -46,6 +46,19 @@ keyed write (reviewed, hash-pinned); proved (Props/C18Bind.lean): only package-s
 does not depend on the order of TypesInfo.Defs. Ties: `h_c18 -mode find` (fresh binders, real FindObject) vs `driver_c18 idx`.
 A project whose FIRST generation fails is generated again (up to 3 times): failing in one process and succeeding in the next is
 a violation too.
+
+Round 6 (after the misses C18-change11 / C18-change12): (a) WHERE the generator process is started. Every generation is a
+process STARTED in its start directory (cwd and $PWD - `h_c18` refuses to run otherwise; until round 5 the harness chdir'ed
+after process start, which a package-level `var wd, _ = os.Getwd()` never sees); start directories are derived per project from
+its own gqlgen.yml by class (c18proj.start_dirs: root, output dirs, below the exec dir, schema dirs, unrelated dirs); the config
+is found by the upward search or, from the root, named as gqlgen.yml / ./gqlgen.yml / absolute path. Regenerated
+`Gen/WorkDirReads.lean` (reads of the working directory with their phase, the steps of LoadConfigFromDefaultLocations);
+proved (Props/C18Start.lean): no read at package initialisation, find -> chdir -> load, hence every read made while generating
+sees the config directory. (b) names that COLLIDE after Go name normalisation: project dimension collisions (c18col*, corpus
+collide_*), more processes for these projects; regenerated `Gen/RegistryCallers.lean` (type-checked call graph: who reaches the
+process-global registry `modelNames`, from which range-over-map loops); proved (Props/C18Names.lean over
+Model/NameRegistry.lean): no map loop reaches the registry, without collisions every request order gives the plain names, with a
+collision two orders give two allocations. Tie: `h_c18 -mode names` (real ToGoModelName) vs `driver_c18 reg`.
 """
 import difflib
 import os
@@ -157,13 +170,15 @@ def run(ctx):
         "per-file builds (Model/PerSchema.lean): a build is reduced to the one source addBuild pins it to; the output name of an element is the base name of its schema file put into exec.filename_template; data.Objects / data.Inputs are delivered sorted by name (BuildData's sort, inventory); tied to the real generator by the dir_<name>_args functions of the generated files of every follow-schema project",
         "root-template order (Model/RenderOrder.lean): sort.SliceStable is modelled by a merge sort - with a strict total order every correct sort returns the same list; template names are compared as byte strings; tied to the real Render by the regions of the rendered files",
         "binder index (Model/IndexDefs.lean): an entry of TypesInfo.Defs is reduced to (identifier name, object, nil?, parent scope is nil / the package scope / another scope); the Go type checker keeps package-scope names pairwise distinct (hypothesis PkgDistinct); tied to the real binder by FindObject on every bound type of the projects with hand-written packages",
+        "start-directory model (Model/StartDir.lean): a read of the working directory is os.Getwd / filepath.Abs / os.Getenv(\"PWD\") written with the package's own import name (go/extract/workdirreads.go, syntactic); reads inside function literals of package-level initialisers count as made on demand unless the literal is invoked on the spot; the config is found by the upward search (an explicitly named config never moves the process: those runs start in the project root); tied to the real generator by starting every generation PROCESS in the start directory",
+        "name-registry model (Model/NameRegistry.lean): single-part requests (type names; enum values ask with two parts and are covered only by the real generations); the call graph of go/extract/registrycallers.go follows static calls only (no interface / function-value calls); tied to the real registry by `h_c18 -mode names` on request sequences over colliding names",
         "import-table model (Model/Imports.lean): the imports internal/rewrite reads back from an existing resolver file are a subset of the first rendering's table with the alias Import.String printed; tied to the real generator only by the bound-package projects (imports dimension)",
     ]
     t0 = time.time()
     timings = {}
-    ok_extract = ctx.extract("Keywords", "MapRanges", "ResolverImports", "SortComparators", "GenerateSteps", "PerSchemaSteps", "RenderOrder", "IndexDefs")
+    ok_extract = ctx.extract("Keywords", "MapRanges", "ResolverImports", "SortComparators", "GenerateSteps", "PerSchemaSteps", "RenderOrder", "IndexDefs", "WorkDirReads", "RegistryCallers")
     proved = ok_extract and ctx.prove(props=["GqlgenVerif.Props.C18", "GqlgenVerif.Props.C18Regen", "GqlgenVerif.Props.C18Run", "GqlgenVerif.Props.C18Layout",
-                                           "GqlgenVerif.Props.C18Tpl", "GqlgenVerif.Props.C18Bind"])
+                                           "GqlgenVerif.Props.C18Tpl", "GqlgenVerif.Props.C18Bind", "GqlgenVerif.Props.C18Start", "GqlgenVerif.Props.C18Names"])
     gen_file = os.path.join(vf.LEAN, "GqlgenVerif", "Gen", "MapRanges.lean")
     sites = []
     if os.path.exists(gen_file):
@@ -237,13 +252,16 @@ def run(ctx):
     for dim, gen, n in (("rel", c18proj.relations, 3 if quick else 12), ("imp", c18proj.imports, 4 if quick else 14),
                         ("lit", c18proj.literals, 1 if quick else 4), ("fed", c18proj.federation, 4 if quick else 12),
                         ("ab", c18proj.autobind, 4 if quick else 12), ("mod", c18proj.modular, 4 if quick else 12),
-                        ("xf", c18proj.extrafields, 2 if quick else 6), ("sh", c18proj.shadow, 4 if quick else 10)):
+                        ("xf", c18proj.extrafields, 2 if quick else 6), ("sh", c18proj.shadow, 4 if quick else 10),
+                        ("col", c18proj.collisions, 4 if quick else 12)):
         for i in range(n):
             name = "c18%s%d" % (dim, i)
             if dim == "rel":
                 proj = gen(prng, name, always_false=i % 3 != 2)
             elif dim == "fed":
                 proj = gen(prng, name, option=fed_opts[min(i, 3)], version=1 if i == 2 else None, min_requires=9 if i < 2 else 3)
+            elif dim == "col":
+                proj = gen(prng, name, groups=1 if i == 0 else None)            # the first: a single group (one race)
             elif dim == "sh":
                 proj = gen(prng, name, collisions=(1, 2)[i] if i < 2 else None)      # the first two: few collisions (a run may go either way)
             else:
@@ -259,37 +277,65 @@ def run(ctx):
         if L:
             layouts[p] = L
 
-    # (GOMAXPROCS, start dir, wipe generated files first?)
-    plan = [(1, "", True), (4, "res", False), (16, "sub/deep", True), (2, "sub", False)]
+    # (GOMAXPROCS, class of the directory the PROCESS is started in (c18proj.start_dirs; "*" = drawn per project), wipe
+    #  generated files first?, how the config is found: search = upward search + chdir (`gqlgen generate`), "*" = drawn per
+    #  project from search / rel / dotrel / abs (`gqlgen generate -c <path>`, only meaningful from the root))
+    plan = [(1, "root", True, "*"), (4, "out", False, "search"), (16, "*", True, "search"), (2, "*", False, "search")]
     if not quick:
-        plan += [(8, "sub", True), (1, "sub/deep", False), (3, "", True), (16, "", False)]
+        plan += [(8, "*", True, "search"), (1, "deep", False, "search"), (3, "root", True, "*"), (16, "root", False, "*"),
+                 (2, "*", True, "search"), (5, "*", True, "search")]
     if (sensitive or (ok_extract and not proved)) and quick:
-        plan += [(8, "", True), (1, "", True), (3, "", True), (16, "", True)]
+        plan += [(8, "root", True, "search"), (1, "root", True, "search"), (3, "root", True, "search"), (16, "root", True, "search")]
+    # projects whose output can depend on the order in which NAMES are first requested get more processes (each process
+    # decides a two-way race with probability 1/2)
+    extra_plan = [(8, "root", True, "search"), (3, "*", True, "search"), (1, "root", True, "search"), (16, "*", True, "search"),
+                  (2, "root", True, "search"), (5, "root", True, "search")]
+    FREE_STARTS = ("deep", "out", "schema", "tool", "below", "sub")
+    CFGS = ("search", "rel", "abs", "dotrel")
+
+    def gen_cmd(d, start, cfg, procs):
+        """One generation = one process STARTED in d/start (cwd and $PWD, as a shell would)."""
+        env = vf.go_env()
+        sd = os.path.join(d, start) if start else d
+        os.makedirs(sd, exist_ok=True)
+        env.update({"GOMAXPROCS": str(procs), "GOMEMLIMIT": "3GiB", "PWD": sd})
+        rc, so, se = vf.sh([hbin, "-mode", "gen", "-dir", d, "-start", start, "-cfg", cfg], cwd=sd, env=env, timeout=600)
+        if rc == 2:
+            raise RuntimeError("harness refused to run: " + se[-400:])
+        return rc, so, se, env
 
     def one(p):
         d = os.path.join(root, p)
         runs = []
-        for procs, start, wipe in plan:
+        pidx = projects.index(p)
+        prng_p = vf.Rng(ctx.seed * 7919 + 31 * pidx + 5)
+        classes = None
+        my_plan = plan + (extra_plan[:3 if quick else 6] if meta.get(p, {}).get("more_processes") else [])
+        for step, (procs, sclass, wipe, cfg) in enumerate(my_plan):
             if wipe:
                 wipe_generated(d)
             os.makedirs(os.path.join(d, "sub", "deep"), exist_ok=True)
-            if not os.path.isdir(os.path.join(d, start)):
-                start = "sub/deep"
-            env = vf.go_env()
-            env.update({"GOMAXPROCS": str(procs), "GOMEMLIMIT": "3GiB"})
-            rc, so, se = vf.sh([hbin, "-mode", "gen", "-dir", d, "-start", start], cwd=vf.GO, env=env, timeout=600)
+            if classes is None:
+                classes = c18proj.start_dirs(d)
+            if sclass == "*":
+                sclass = FREE_STARTS[(pidx + step + prng_p.below(len(FREE_STARTS))) % len(FREE_STARTS)]
+            cands = classes[sclass]
+            start = cands[prng_p.below(len(cands))]
+            if cfg == "*":
+                cfg = CFGS[(pidx + step) % len(CFGS)]
+            if start:
+                cfg = "search"
+            rc, so, se, env = gen_cmd(d, start, cfg, procs)
             if rc != 0:
                 err = [l for l in se.split("\n") if l.strip() and not l.startswith("/verif")]
                 err = ([l for l in err if re.match(r"(GENERATE-ERROR|CONFIG-ERROR|PANIC)", l)] + err)[:3]
                 if not runs:
                     # the project's first generation fails. C17's business - unless the SAME inputs generate in another process
-                    first_failures.setdefault(p, []).append({"GOMAXPROCS": procs, "start": start or ".", "clean_tree": True, "failed": err})
+                    first_failures.setdefault(p, []).append({"GOMAXPROCS": procs, "start": start or ".", "config": cfg, "clean_tree": True, "failed": err})
                     again = None
                     for procs2 in (2, 8, 1):
                         wipe_generated(d)
-                        env2 = vf.go_env()
-                        env2.update({"GOMAXPROCS": str(procs2), "GOMEMLIMIT": "3GiB"})
-                        rc2, so2, se2 = vf.sh([hbin, "-mode", "gen", "-dir", d, "-start", ""], cwd=vf.GO, env=env2, timeout=600)
+                        rc2, so2, se2, env2 = gen_cmd(d, "", "search", procs2)
                         if rc2 == 0:
                             again = procs2
                             break
@@ -303,10 +349,10 @@ def run(ctx):
                     continue
                 # an earlier generation of the SAME inputs succeeded: this one must too (and must leave the same tree)
                 files = {k: v for k, v in listing(hbin, d, env).items() if not k.endswith(INPUT_SUFFIXES) and not k.endswith("keep")}
-                runs.append({"GOMAXPROCS": procs, "start": start or ".", "clean_tree": wipe, "files": files, "failed": err, "_text": {}})
+                runs.append({"GOMAXPROCS": procs, "start": start or ".", "config": cfg, "clean_tree": wipe, "files": files, "failed": err, "_text": {}})
                 return p, runs, None
             files = {k: v for k, v in listing(hbin, d, env).items() if not k.endswith(INPUT_SUFFIXES) and not k.endswith("keep")}
-            run = {"GOMAXPROCS": procs, "start": start or ".", "clean_tree": wipe, "files": files}
+            run = {"GOMAXPROCS": procs, "start": start or ".", "start_class": sclass, "config": cfg, "clean_tree": wipe, "files": files}
             same_group = [r for r in runs if r["clean_tree"] == wipe]
             runs.append(run)
             if not same_group or files != same_group[0]["files"]:
@@ -372,10 +418,10 @@ def run(ctx):
                 shape.update({"single_file_resolver_layout": single_file_resolver,
                               "only_change_is_warning_block_with_empty_root_resolver_struct": only_warning})
             ctx.violation({"kind": "hash-mismatch", "project": p, "differing_files": diff_files[:10], "diff_excerpt": excerpt,
-                           "run_a": {k: v for k, v in base.items() if k in ("GOMAXPROCS", "start", "clean_tree")},
-                           "run_b": {k: v for k, v in r.items() if k in ("GOMAXPROCS", "start", "clean_tree")},
+                           "run_a": {k: v for k, v in base.items() if k in ("GOMAXPROCS", "start", "config", "clean_tree")},
+                           "run_b": {k: v for k, v in r.items() if k in ("GOMAXPROCS", "start", "config", "clean_tree")},
                            "input": inputs, "order_sensitive_sites": sensitive[:6], "shape": shape,
-                           "replay": "project %s (files in `input`, directory /verif/go/genout/c18/%s): `.cache/h_c18 -mode gen -dir <dir> -start %s` with GOMAXPROCS=%d %s wrote %s differently from run %d (GOMAXPROCS=%d, start %s, %s)" % (
+                           "replay": "project %s (files in `input`, directory /verif/go/genout/c18/%s): `.cache/h_c18 -mode gen -dir <dir> -start %s` (process started IN <dir>/<start>) with GOMAXPROCS=%d %s wrote %s differently from run %d (GOMAXPROCS=%d, start %s, %s)" % (
                                p, p, r["start"], r["GOMAXPROCS"], "on a clean tree" if r["clean_tree"] else "on the tree left by the previous run",
                                ", ".join(diff_files[:4]), runs.index(base) + 1, base["GOMAXPROCS"], base["start"],
                                "clean tree" if base["clean_tree"] else "on previous output")})
@@ -386,7 +432,7 @@ def run(ctx):
             ok_run = runs[0]
             mismatches += 1
             ctx.violation({"kind": "generation-outcome-differs-between-processes", "project": p, "failing_runs": ff,
-                           "succeeding_run": {k: v for k, v in ok_run.items() if k in ("GOMAXPROCS", "start", "clean_tree")},
+                           "succeeding_run": {k: v for k, v in ok_run.items() if k in ("GOMAXPROCS", "start", "config", "clean_tree")},
                            "input": inputs, "dimension": meta.get(p, {}), "order_sensitive_sites": sensitive[:6],
                            "shape": {"kind": "determinism", "generation_failed": True, "on_previous_output": False},
                            "replay": "project %s (files in `input`, directory /verif/go/genout/c18/%s): `.cache/h_c18 -mode gen -dir <dir>` on a clean tree FAILED in %d process(es) (%s) "
@@ -402,18 +448,19 @@ def run(ctx):
             removed = sorted(k for k in prev["files"] if k not in r["files"]) if not r["clean_tree"] else []
             mismatches += 1
             ctx.violation({"kind": "generation-failed-after-success", "project": p, "error": r["failed"], "files_removed_by_the_failing_run": removed[:10],
-                           "run_a": {k: v for k, v in base.items() if k in ("GOMAXPROCS", "start", "clean_tree")},
-                           "run_b": {k: v for k, v in r.items() if k in ("GOMAXPROCS", "start", "clean_tree")},
+                           "run_a": {k: v for k, v in base.items() if k in ("GOMAXPROCS", "start", "config", "clean_tree")},
+                           "run_b": {k: v for k, v in r.items() if k in ("GOMAXPROCS", "start", "config", "clean_tree")},
                            "input": inputs, "dimension": meta.get(p, {}), "order_sensitive_sites": sensitive[:6],
                            "shape": {"kind": kind, "generation_failed": True,
                                      "on_previous_output": not r["clean_tree"]},
-                           "replay": "project %s (files in `input`, directory /verif/go/genout/c18/%s): run %d, `.cache/h_c18 -mode gen -dir <dir> -start %s` with GOMAXPROCS=%d %s, FAILED (%s)%s although run %d of the same inputs (GOMAXPROCS=%d, start %s, %s) succeeded" % (
+                           "replay": "project %s (files in `input`, directory /verif/go/genout/c18/%s): run %d, `.cache/h_c18 -mode gen -dir <dir> -start %s` (process started IN <dir>/<start>) with GOMAXPROCS=%d %s, FAILED (%s)%s although run %d of the same inputs (GOMAXPROCS=%d, start %s, %s) succeeded" % (
                                p, p, len(runs), r["start"], r["GOMAXPROCS"], "on a clean tree" if r["clean_tree"] else "on the un-edited tree left by the previous run",
                                " / ".join(r["failed"])[:300], (" and removed " + ", ".join(removed[:4])) if removed else "",
                                runs.index(base) + 1, base["GOMAXPROCS"], base["start"], "clean tree" if base["clean_tree"] else "on previous output")})
             runs = runs[:-1]
         for r in runs:
-            branch["run:GOMAXPROCS=%d,start=%s,%s" % (r["GOMAXPROCS"], r["start"], "clean" if r["clean_tree"] else "on-previous-output")] += 1
+            branch["run:GOMAXPROCS=%d,%s" % (r["GOMAXPROCS"], "clean" if r["clean_tree"] else "on-previous-output")] += 1
+            branch["start:%s,config=%s" % (r.get("start_class", "root"), r.get("config", "search"))] += 1
             g = r["clean_tree"]
             if g not in firsts:
                 firsts[g] = r
@@ -504,7 +551,7 @@ def run(ctx):
                         ctx.violation({"kind": "pointer-decision", "project": p, "struct": sm.group(1), "field": fm.group(2),
                                        "generated_type": fm.group(1), "model": {"p": "pointer", "v": "value"}[want],
                                        "input": {f: open(os.path.join(root, p, f)).read() for f in ("schema.graphql", "gqlgen.yml")},
-                                       "run": {k: v for k, v in r.items() if k in ("GOMAXPROCS", "start", "clean_tree")},
+                                       "run": {k: v for k, v in r.items() if k in ("GOMAXPROCS", "start", "config", "clean_tree")},
                                        "shape": {"kind": "pointer-decision"},
                                        "replay": "project %s (directory go/genout/c18/%s): models_gen.go declares %s.%s as %s; sorting the models by name and then "
                                                  "running the cycle pass (Model/CyclePass.lean modelPointers, driver_c18 `cyc %s`) makes it a %s" % (
@@ -572,7 +619,7 @@ def run(ctx):
             exp = sorted(set(want.split(",")) - {"-"}) if want_ok == "ok" else None
             if got != exp:
                 ctx.violation({"kind": "correspondence", "project": p, "what": "types declared by the generated models file vs the tree model of api.Generate",
-                               "run": {k: v for k, v in r.items() if k in ("GOMAXPROCS", "start", "clean_tree")}, "models_file_declares": got,
+                               "run": {k: v for k, v in r.items() if k in ("GOMAXPROCS", "start", "config", "clean_tree")}, "models_file_declares": got,
                                "model": exp if exp is not None else "generation fails", "input": inp,
                                "replay": "project %s: %s declares %s; Model/Regenerate.lean over Gen/GenerateSteps.lean (driver_c18 `%s`) predicts %s" % (
                                    p, mf, got, line, exp if exp is not None else "a failing run")}, no_failing_input=True)
@@ -645,7 +692,7 @@ def run(ctx):
                     ctx.violation({"kind": "correspondence", "project": p, "output_file": f,
                                    "what": "directive argument functions in a generated per-schema file vs the build model of generatePerSchema",
                                    "generated_file_holds": list(got), "model_allows": [list(x) for x in sorted(allowed)], "input": inp,
-                                   "run": {k: v for k, v in r.items() if k in ("GOMAXPROCS", "start", "clean_tree")},
+                                   "run": {k: v for k, v in r.items() if k in ("GOMAXPROCS", "start", "config", "clean_tree")},
                                    "replay": "project %s: %s holds dir_*_args for %s; Model/PerSchema.lean over Gen/PerSchemaSteps.lean (driver_c18 `%s`) allows %s" % (
                                        p, f, list(got), lines[0][:300], [list(x) for x in sorted(allowed)])}, no_failing_input=True)
                     break
@@ -680,7 +727,7 @@ def run(ctx):
                     done = True
                     ctx.violation({"kind": "extra-field-order", "project": p, "struct": x["type"], "extra_fields_in_generated_struct": got,
                                    "model": want, "configured": {"named": dict(x["named"]), "embedded": x["embedded"]},
-                                   "run": {k: v for k, v in r.items() if k in ("GOMAXPROCS", "start", "clean_tree")},
+                                   "run": {k: v for k, v in r.items() if k in ("GOMAXPROCS", "start", "config", "clean_tree")},
                                    "input": {f: open(os.path.join(root, p, f)).read() for f in ("schema.graphql", "gqlgen.yml")},
                                    "shape": {"kind": "extra-field-order"},
                                    "replay": "project %s (directory go/genout/c18/%s): %s declares the extra fields of %s in the order %s; getExtraFields sorts them "
@@ -851,6 +898,57 @@ def run(ctx):
                                        case, got, ",".join(names), next(iter(mo)))}, no_failing_input=True)
 
     timings["template_sets"] = round(time.time() - t0, 1)
+    t0 = time.time()
+    # ------------------------------------------------------------ round 6: name registry and start directory models
+    # (b) the REAL registry (templates.ToGoModelName, `h_c18 -mode names`) vs Model/NameRegistry.lean (driver `reg`) on request
+    # sequences over the colliding names of the collisions projects (sorted, reversed, shuffled, with repeats, with a name that
+    # already looks like a suffixed one); every sequence has its own prefix - the registry is process-global
+    reg_cmp = reg_requests = 0
+    wd_cmp = 0
+    if have_model:
+        seqs = []
+        rrng = vf.Rng(ctx.seed * 104729 + 1806)
+        fams = [["FooBar", "foo_bar", "FOO_BAR", "FooBar0", "Foo_Bar"], ["UserId", "UserID", "user_id", "USER_ID"], ["Plan2", "plan_2", "PLAN_2", "Plan20", "Plan_2_0"]]
+        for p in projects:
+            for g in meta.get(p, {}).get("groups", []) if meta.get(p, {}).get("dimension") == "collisions" else []:
+                fams.append([m["name"] for m in g] + [g[0]["name"] + "0", "Other"])
+        for fam in fams[:10 if quick else 40]:
+            orders = [sorted(fam), sorted(fam, reverse=True)] + [c18proj.shuffle(rrng, fam) for _ in range(2 if quick else 5)]
+            orders.append(orders[-1] + c18proj.shuffle(rrng, fam)[:2])          # names asked for again
+            for o in orders:
+                n = len(seqs)
+                tag = "Q" + "abcdefghijklmnopqrstuvwxyz"[n // 26 % 26] + "abcdefghijklmnopqrstuvwxyz"[n % 26] + "x_"
+                seqs.append([tag + x for x in o])
+        rc, so, se = vf.sh([hbin, "-mode", "names"], cwd=vf.GO, env=vf.go_env(), inp="".join(" ".join(q) + "\n" for q in seqs), timeout=120)
+        if rc != 0:
+            raise RuntimeError("h_c18 -mode names failed: " + se[-500:])
+        real = [[t.split("=") for t in l.split(";")] for l in so.split("\n") if l]
+        if len(real) != len(seqs):
+            raise RuntimeError("h_c18 -mode names: %d answers for %d sequences" % (len(real), len(seqs)))
+        outs = ctx.driver("c18", ["reg " + ";".join("%s=%s" % (k, n) for k, n, _ in r) for r in real])
+        for q, r, out in zip(seqs, real, outs):
+            reg_cmp += 1
+            reg_requests += len(q)
+            got = [a for _, _, a in r]
+            if out.split(";") != got:
+                ctx.violation({"kind": "correspondence", "what": "answers of templates.ToGoModelName vs Model/NameRegistry.lean", "requests": q,
+                               "real": got, "model": out.split(";"), "shape": {"kind": "determinism", "model": "NameRegistry"},
+                               "replay": "on an empty registry, templates.ToGoModelName asked for %s answers %s; Model/NameRegistry.lean (driver_c18 `reg`) predicts %s" % (
+                                   " ".join(q), " ".join(got), out.replace(";", " "))})
+                break
+        # (a) Model/StartDir.lean over Gen/WorkDirReads.lean: every read made while generating sees the project root whatever the
+        # start directory (the real harness refuses a run whose working directory after the load is not the project root)
+        starts = sorted({r["start"] for p in projects if results[p][0] for r in results[p][0]})
+        for st, out in zip(starts, ctx.driver("c18", ["wd /proj%s /proj" % ("" if st == "." else "/" + st) for st in starts])):
+            wd_cmp += 1
+            bad = [x for x in out.split(";") if "=" in x and x.split("=")[1] != "/proj" and ":search=" not in x]
+            if bad:
+                ctx.violation({"kind": "start-directory-model", "start": st, "reads": out.split(";"), "failing": getattr(ctx, "proof_failure", None),
+                               "shape": {"kind": "determinism", "model": "StartDir"},
+                               "replay": "Model/StartDir.lean over Gen/WorkDirReads.lean: started in <project>/%s, the read at %s sees that directory instead of the "
+                                         "directory of gqlgen.yml (driver_c18 `wd /proj/%s /proj`)" % (st, bad[0].split("=")[0], st)}, no_failing_input=True)
+                break
+    timings["registry_and_start_dir_models"] = round(time.time() - t0, 1)
     # ------------------------------------------------------------ broken proof
     if ok_extract and not proved:
         found = any(not nf for _, nf in ctx.violations)
@@ -883,10 +981,12 @@ def run(ctx):
 
     cls = Counter(s["class"] for s in sites)
     ctx.cov.update({
-        "evaluations": total_runs + order_cmp + ptr_cmp + regen_cases + regen_cmp + layout_cmp + xf_cmp + bind_lookups + render_runs,
+        "evaluations": total_runs + order_cmp + ptr_cmp + regen_cases + regen_cmp + layout_cmp + xf_cmp + bind_lookups + render_runs + reg_cmp,
         "binder_lookup_comparisons": {"projects": bind_cmp, "lookups": bind_lookups, "lookups_with_namesakes_in_other_scopes": bind_shadowed,
                                       "fresh_binders_per_lookup": 12 if quick else 24},
         "timings_s": timings,
+        "name_registry_comparisons": {"request_sequences": reg_cmp, "requests": reg_requests},
+        "start_directory_model_evaluations": wd_cmp,
         "template_set_comparisons": {"sets": render_cmp, "renders": render_runs, "processes": len(tplan)},
         "per_schema_build_comparisons": {"projects": layout_cmp, "generated_files": layout_files,
                                          "projects_with_shared_base_names": len([p for p in layouts if layouts[p]["shared"] and results[p][0] is not None])},
@@ -907,7 +1007,7 @@ def run(ctx):
         "hash_mismatches": mismatches,
         "declaration_order_comparisons": order_cmp,
         "projects_skipped_generation_failed": skipped[:5],
-        "samples": [{"project": p, "runs": [{k: v for k, v in r.items() if k in ("GOMAXPROCS", "start", "clean_tree")} for r in results[p][0]],
+        "samples": [{"project": p, "runs": [{k: v for k, v in r.items() if k in ("GOMAXPROCS", "start", "config", "clean_tree")} for r in results[p][0]],
                      "files": len(results[p][0][0]["files"])} for p in projects[:3] if results[p][0]],
         "sampled_not_proved": ["independence from process / GOMAXPROCS / start directory", "idempotence on a generated tree"],
     })
